@@ -9,6 +9,7 @@ import (
 	"fmt"
 	"hash/fnv"
 	"runtime"
+	"strings"
 	"runtime/debug"
 	"sync"
 	"sync/atomic"
@@ -203,11 +204,24 @@ func (s *Sim) spawn(name string, f func()) *Task {
 	return t
 }
 
+// trimStack keeps the function names of a stack trace only: goroutine numbers,
+// argument values and addresses differ from run to run and must stay out of the
+// (hashed) event log.
 func trimStack(b []byte) string {
-	if len(b) > 3000 {
-		b = b[:3000]
+	var out []string
+	for _, ln := range strings.Split(string(b), "\n") {
+		if ln == "" || ln[0] == '\t' || strings.HasPrefix(ln, "goroutine ") || strings.HasPrefix(ln, "created by ") {
+			continue
+		}
+		if i := strings.LastIndexByte(ln, '('); i > 0 {
+			ln = ln[:i]
+		}
+		out = append(out, ln)
+		if len(out) >= 14 {
+			break
+		}
 	}
-	return string(b)
+	return strings.Join(out, " < ")
 }
 
 // self returns the calling task, adopting unknown goroutines. mu held.
@@ -529,7 +543,16 @@ func (s *Sim) Fail(oracle, format string, args ...any) {
 
 func (s *Sim) failLocked(oracle, detail string) {
 	s.nfail++
-	if len(s.Failures) < 8 {
+	// the first failure of every oracle id is kept (so that a frequent known finding
+	// cannot crowd out a different violation of the same run)
+	dup := false
+	for _, f := range s.Failures {
+		if f.Oracle == oracle {
+			dup = true
+			break
+		}
+	}
+	if !dup && len(s.Failures) < 48 {
 		s.Failures = append(s.Failures, Failure{oracle, detail})
 	}
 	s.logLocked("FAIL " + oracle + " " + detail)
